@@ -138,7 +138,12 @@ class Tree:
             if rv["k"] in ("use", "cast") and rv["op"]["k"] in ("copy", "move") and not rv["op"]["place"]["proj"]: local = rv["op"]["place"]["local"]; continue
             # one component of a tuple / struct of references built just before: `let (a, b) = (&mut self.x, &mut self.y);`
             if rv["k"] == "use" and rv["op"]["k"] in ("copy", "move") and len(rv["op"]["place"]["proj"]) == 1 and rv["op"]["place"]["proj"][0]["k"] == "field":
-                ds2 = fn.defs1(rv["op"]["place"]["local"])
+                al_ = rv["op"]["place"]["local"]
+                for _c in range(6):      # the aggregate may have been moved (into an inlined helper's `self`) before the component is read
+                    ds2 = fn.defs1(al_)
+                    if len(ds2) == 1 and ds2[0][2]["k"] == "assign" and ds2[0][2]["rv"]["k"] == "use" and ds2[0][2]["rv"]["op"]["k"] in ("copy", "move") and not ds2[0][2]["rv"]["op"]["place"]["proj"]:
+                        al_ = ds2[0][2]["rv"]["op"]["place"]["local"]; continue
+                    break
                 if len(ds2) == 1 and ds2[0][2]["k"] == "assign" and ds2[0][2]["rv"]["k"] == "aggr":
                     flds = ds2[0][2]["rv"]["fields"]; i_ = rv["op"]["place"]["proj"][0].get("i")
                     if isinstance(i_, int) and i_ < len(flds) and flds[i_]["k"] in ("copy", "move") and not flds[i_]["place"]["proj"]:
